@@ -87,15 +87,15 @@ CHECKS = {
         "design_ref": "DESIGN.md 2.4, 3/C08",
         "technique": "bounded-exhaustive token documents on the real render_dependencies/middleware vs token-level reference implementation",
         "text": "Every document of <= 4 (thorough <= 5) tokens over a 24-token hostile alphabet (text incl. non-ASCII, look-alikes, </head>/</body> variants, real placeholders with 0-2 id attributes, real marker comments) x str/bytes/SafeString/latin-1 x document/fragment "
-                "is run through the real render_dependencies and compared byte-for-byte and type-exactly with a reference of the documented insertion rule; the middleware is run over all <= 2-token bodies x content types x streaming x sync/async.",
+                "is run through the real render_dependencies and compared byte-for-byte and type-exactly with a reference of the documented insertion rule; the middleware is run over all <= 2-token bodies x content types (incl. bodies that are not valid in the declared charset) x streaming x sync/async; the real components' inlined scripts carry backslash sequences.",
         "note": "tag strings are taken from the implementation (their content is C04); </HEAD> / </BODY> accepted under either case reading; tag strings containing end-tag or placeholder look-alikes are not generated",
     },
     "C09": {
         "engine": "ENUM",
         "design_ref": "DESIGN.md 2.4, 3/C09",
         "technique": "bounded-exhaustive fragment sequences on the real lexer vs stock DebugLexer and a quote-aware reference lexer",
-        "text": "Every concatenation of <= 4 (quick) / <= 5 (thorough) of 23 lexer-relevant fragments, plus all length-5/6 sequences over an 11-fragment core, is lexed by parse_template under both multiline_tags settings and checked for exact partition, "
-                "contents and line numbers, for equality with stock DebugLexer where no tag is quoted and with a quote-aware reference lexer otherwise; the public Template() route must fail with the same message, token and template_debug as Django's Parser on the reference tokens.",
+        "text": "Every concatenation of <= 4 (quick) / <= 5 (thorough) of 32 lexer-relevant fragments, plus all length-5/6 sequences over an 11-fragment core, is lexed by parse_template under both multiline_tags settings and checked for exact partition, "
+                "contents and line numbers, for equality with stock DebugLexer where no tag is quoted and with a quote-aware reference lexer otherwise; the public Template() route (with and without a trailing unknown tag) must hand Django's Parser exactly the reference token stream and end with the same outcome, message, token and template_debug as Django's Parser on the reference tokens.",
         "note": "Django 5.1 DebugLexer as stock; backslash escapes honoured; single-line mode with a newline-crossing rescan and unterminated tags checked for the invariants only",
     },
     "C10": {
@@ -120,8 +120,8 @@ CHECKS = {
         "engine": "ENUM",
         "design_ref": "DESIGN.md 2.4, 3/C12",
         "technique": "bounded-exhaustive syntax-alphabet strings through parse_tag/Template, token mutations, serialise round trip, settrace step counts on pumped families",
-        "text": "All strings of <= 4 / <= 5 tokens over the 19-token syntax alphabet go through parse_tag+compile and 7 tag heads, all <= 4 / <= 5-token template strings through Template(), plus every single-token mutant of a generated family of documented-syntax tags: "
-                "the outcome must be a return or TemplateSyntaxError (2 s hang alarm, crashes keyed by call site); the serialise/re-parse fixpoint is checked on every generated tag, and executed-line counts over ~7.8 k pumping and nesting families for k up to 128 / 256 must grow at most quadratically.",
+        "text": "All strings of <= 4 / <= 5 tokens over the 19-token syntax alphabet go through parse_tag+compile and 7 tag heads, all <= 4 / <= 5-token template strings through Template(), plus every single-token mutant and every proper prefix (truncation) of a generated family of documented-syntax tags: "
+                "the outcome must be a return or TemplateSyntaxError (2 s hang alarm, crashes keyed by call site); the serialise/re-parse fixpoint is checked on every generated tag, and executed-line counts over ~9.3 k pumping and nesting families (incl. never-closed nested-expression openers inside strings) for k up to 128 / 256 must grow at most quadratically.",
         "note": "no random sampling; regex-engine time is guarded by alarms only; CPython 3.12 / Django 5.1, default tag formatter",
     },
     "C13": {
